@@ -30,7 +30,7 @@ import (
 // encodings must be byte-identical. A violation replays exactly: the tape holds
 // the permutations. NATIVE mode: the same packet is encoded 16 times with the
 // runtime's own map order in-process, and - for the first runs of the check -
-// by two fresh processes of the UNMODIFIED build (different hash seeds).
+// by eight fresh processes of the UNMODIFIED build (different hash seeds).
 // (ii) Read-only-ness. A tape-drawn history of read-only operations runs
 // between encodings; after every step all accessor values, the deep snapshot
 // and the next encoding must be unchanged.
@@ -41,7 +41,7 @@ var (
 	c11Mode     int // 0 native, 1 identity, 2 systematic, 3 tape
 	c11Sites    map[int]int
 	c11ChildMu  sync.Mutex
-	c11ChildOut map[uint64][2]string
+	c11ChildOut map[uint64][]string
 )
 
 func nthPerm(n, idx int) []int {
@@ -355,7 +355,7 @@ func runC11(c *sim.Ctx) *sim.Violation {
 					"child process %d of the unmodified build encodes the same packet as %s\n%s", j, o, desc())
 			}
 		}
-		c.Count("probe.compared-with-2-fresh-processes-of-the-unmodified-build")
+		c.Count("probe.compared-with-8-fresh-processes-of-the-unmodified-build")
 	}
 	// (ii) read-only histories. For a CONNECT with a will, one time in four the
 	// attached will is first changed through its own setters (which puts the
@@ -425,11 +425,12 @@ func runC11(c *sim.Ctx) *sim.Violation {
 	return nil
 }
 
-// c11Children asks two fresh processes of the unmodified build for the
-// encodings of the first runs.
+// c11Children asks eight fresh processes of the unmodified build for the
+// encodings of the first runs (whatever a process draws once at start-up - the
+// iteration order of a map ranged over at package init - is drawn eight times).
 func c11Children() error {
 	bin := os.Getenv("VERIF_PLAIN_BIN")
-	c11ChildOut = map[uint64][2]string{}
+	c11ChildOut = map[uint64][]string{}
 	if bin == "" {
 		return nil
 	}
@@ -438,10 +439,11 @@ func c11Children() error {
 		seed = "1"
 	}
 	const N = 400
-	var outs [2]map[uint64]string
-	for j := 0; j < 2; j++ {
+	const K = 8
+	var outs [K]map[uint64]string
+	for j := 0; j < K; j++ {
 		cmd := exec.Command(bin, "c11-child", "-seed", seed, "-tier", os.Getenv("VERIF_C11_TIER"))
-		cmd.Env = append(os.Environ(), fmt.Sprintf("VERIF_C11_RANGE=0-%d", N), fmt.Sprintf("GOMAXPROCS=%d", 1+3*j))
+		cmd.Env = append(os.Environ(), fmt.Sprintf("VERIF_C11_RANGE=0-%d", N), fmt.Sprintf("GOMAXPROCS=%d", 1+3*(j%3)))
 		out, err := cmd.Output()
 		if err != nil {
 			return fmt.Errorf("c11-child: %v", err)
@@ -458,8 +460,14 @@ func c11Children() error {
 		}
 	}
 	for i, h := range outs[0] {
-		if h2, ok := outs[1][i]; ok {
-			c11ChildOut[i] = [2]string{h, h2}
+		l := []string{h}
+		for j := 1; j < K; j++ {
+			if h2, ok := outs[j][i]; ok {
+				l = append(l, h2)
+			}
+		}
+		if len(l) == K {
+			c11ChildOut[i] = l
 		}
 	}
 	return nil
@@ -469,7 +477,7 @@ var C11 = &sim.Scenario{
 	ID:    "C11",
 	Level: "exploration",
 	Rule: "one case = one packet (C01 domain built through the API, biased to CONNECT with a will carrying several properties, SUBSCRIBE with subscription identifier, SUBACK/UNSUBACK with reason string; 1 in 5 a packet decoded from a stub frame) encoded 30 times on the INSTRUMENTED build with every range-over-map ordered by the simulator (identity, permutation indexes 1..23 = all orders of maps with <= 4 keys, 6 tape-drawn orders fresh per range execution), " +
-		"16 times with the runtime's native order, and for the first 400 runs by two fresh processes of the unmodified build; then a history of 1..12 read-only operations {WriteTo, String, Dump, WellFormed, all accessors, HasFlag, Will()} with accessor values, deep snapshot and encoding compared after every step. distinct_nontrivial counts distinct (type, origin, encoding).",
+		"16 times with the runtime's native order, and for the first 400 runs by eight fresh processes of the unmodified build; then a history of 1..12 read-only operations {WriteTo, String, Dump, WellFormed, all accessors, HasFlag, Will()} with accessor values, deep snapshot and encoding compared after every step. distinct_nontrivial counts distinct (type, origin, encoding).",
 	Assumptions: []string{
 		"map iteration is the only runtime nondeterminism the library consumes (no time, randomness, goroutines or I/O in it); cmd/instr puts EVERY range over a map behind the seam, including ones added by a future change",
 		"the Go specification leaves map iteration order unspecified, so every permutation is a legal schedule",
